@@ -180,6 +180,11 @@ class C19(Prop):
             nonlocal oracle
             oracle = False
             why.append(msg)
+        # construction entry points aimed at missing things: a failure must be a ValueError (never FileNotFoundError,
+        # OSError, PanicException, ...)
+        for label, res in py.get("ctor_probes", []):
+            if isinstance(res, dict) and res.get("exc") != "ValueError":
+                bad("construction probe %s: failure surfaces as %s (%s), not ValueError" % (label, res.get("exc"), str(res.get("msg"))[:80]))
         # construction
         if "ctor" in py or "ctor" in model:
             if ("ctor" in py) != ("ctor" in model):
